@@ -29,7 +29,7 @@ SPEC = {
         "patterns are compared on package names; Includes (and Matches for `...`/`all`) ignore the Subrepo field, as the code does — selection across subrepos is outside the statement",
         "round trip is stated for contexts whose current package is a valid package name and whose subrepo argument contains no ':' or '//'; the printed form is re-parsed in the empty context",
     ],
-    "explanation": "Known findings (7 narrow classes) are expected on the pinned tree; see findings_inbox/C20.jsonl.",
+    "explanation": "Two findings repaired by fix: commits (matches-string-prefix, sandbox-experimental-string-prefix); five narrow classes remain known, see findings_inbox/C20.jsonl.",
 }
 
 MUTATIONS = """
@@ -48,4 +48,10 @@ Dry-runs on scratch copies (VERIF_REPO=/var/tmp/mC20_<name> ./check C20 quick, i
  harmless           renamed idx->pos and swapped two independent assignments in ParseBuildLabelParts, swapped the two
                     disjuncts of Includes, renamed the loop variables of validateSandbox        exit 0, 32/32, 0 disagreements
  identity           no-op patch                                                                 exit 0
+Fix phase (after fix: commits ca7c080 Matches by component, 7c14979 validateSandbox experimental dirs by component):
+ reintro_matches    Matches `...` case back to raw strings.HasPrefix
+                    exit 1: facts matchesSlash=false (36/38), VIOLATION matches-string-prefix with a failing `mat` op line
+ reintro_sandbox    validateSandbox experimental test back to raw strings.HasPrefix
+                    exit 1: facts sandboxExpSlash=false (36/38), proof-broken (the class was still listed as known in
+                    known_findings.json at the time; the oracle does produce sandbox-experimental-string-prefix inputs)
 """
